@@ -151,6 +151,35 @@ def grid_case(ctx, idx, rng):
     check_model(ctx, name, L, p, d)
 
 
+INT_MODELS = [('ising', None), ('xxz', None), ('xxz1', None), ('bose', 3), ('fermi', None)]
+
+
+def make_integer_grid(vals, Ls):
+    """Every parameter triple from a small integer range (values that coincide with operator ids, site indices, bond dimensions, each other), passed as
+    Python int / float / numpy scalar in rotation, for every model."""
+    combos = list(itertools.product(vals, repeat=3))
+
+    def fn(ctx, idx, rng):
+        name, d = INT_MODELS[idx % len(INT_MODELS)]
+        k = idx // len(INT_MODELS)
+        combo = combos[k % len(combos)]
+        L = Ls[(k // len(combos)) % len(Ls)]
+        conv = (int, float, np.float64, np.int64)[(idx // 7) % 4]
+        p = tuple(conv(x) for x in combo)
+        if all_chains_vanish(name, L, tuple(float(x) for x in p)):
+            ctx.case((name, 'identically-zero-excluded'), nontrivial=False)
+            return
+        ctx.case((name, f'L{L}', 'integer-grid', conv.__name__, 'equal-params' if len(set(combo)) < 3 else 'distinct'),
+                 sample={'model': name, 'L': L, 'params': [repr(x) for x in p], 'd': d}, info={'model': name, 'L': L, 'params': [float(x) for x in p], 'd': d})
+        check_model(ctx, name, L, p, d)
+    fn.count = len(combos) * len(INT_MODELS) * len(Ls)
+    return fn
+
+
+IG_Q = make_integer_grid((-2, -1, 0, 1, 2, 3), (3,))
+IG_T = make_integer_grid((-4, -3, -2, -1, 0, 1, 2, 3, 4), (1, 2, 3, 4))
+
+
 def random_case(ctx, idx, rng):
     name = str(rng.choice(['ising', 'xxz', 'xxz1', 'bose', 'fermi']))
     d = int(rng.integers(1, 5)) if name == 'bose' else None
@@ -282,6 +311,8 @@ SPEC = {
                  'linferm.dense==formula', 'linferm.CAR', 'linferm.charge-shift'],
     'workloads': [
         Workload('grid', grid_case, quick=8 * 8 * 64, thorough=8 * 8 * 64 * 12),
+        Workload('integer-grid', IG_Q, quick=IG_Q.count, thorough=0, exhaustive={'space': 'all parameter triples in {-2..3}^3, every model, L=3'}),
+        Workload('integer-grid-all', IG_T, quick=0, thorough=IG_T.count, exhaustive={'space': 'all parameter triples in {-4..4}^3, every model, L=1..4'}),
         Workload('random', random_case, quick=150, thorough=40000),
         Workload('large', large_case, quick=120, thorough=6000),
         Workload('linear-fermionic', linear_fermionic_case, quick=200, thorough=32000),
